@@ -248,12 +248,17 @@ struct UnregCase {
     SpecCase base; // the full registry, including the class left out
     int left_out = 0;
     std::string use; // base | method_param | def_param | dynamic
+    // dynamic only: the class was registered for an earlier update and its
+    // registration was removed since (a class is unregistered when its
+    // registration objects are destroyed, e.g. with a shared library)
+    bool was_registered = false;
 };
 
 static json to_json(const UnregCase& c) {
     json j = to_json(c.base);
     j["left_out"] = c.left_out;
     j["use"] = c.use;
+    j["was_registered"] = c.was_registered;
     return j;
 }
 
@@ -262,6 +267,7 @@ static UnregCase unreg_from_json(const json& j) {
     c.base = spec_case_from_json(j);
     c.left_out = j.at("left_out");
     c.use = j.at("use");
+    c.was_registered = j.value("was_registered", false);
     return c;
 }
 
@@ -309,22 +315,43 @@ static Outcome run_unreg(const UnregCase& c) {
     h.add(hash_case(c.base));
     h.add(c.left_out);
     h.add(c.use);
+    h.add(int(c.was_registered));
     o.hash = h.h;
     Config& cfg = need_config(c.base.cfg);
     const Spec& s = c.base.spec;
     int L = c.left_out;
     Spec reg = without_records_of(s, L);
-    World w(cfg, reg);
+    bool used_statically = mentions(s, L, "base") ||
+        mentions(s, L, "method_param") || mentions(s, L, "def_param");
+    bool prior = c.was_registered && c.use == "dynamic" && !used_statically;
+    World w(cfg, prior ? s : reg);
     w.register_all();
     type_id lid = w.objs[L].id;
+    if (prior) {
+        // an earlier update knew the class; its records are then removed
+        UpdateOutcome up0 = cfg.update();
+        if (up0.err.kind == ErrorRec::hash_search) {
+            o.inconclusive = true;
+            return o;
+        }
+        if (up0.err.kind != ErrorRec::none) {
+            o.fail("unreg-prior-update: update of the complete registry "
+                   "reported " + err_name(up0.err));
+            return o;
+        }
+        for (std::size_t r = 0; r < s.recs.size(); ++r) {
+            if (s.recs[r].cls == L) {
+                w.unregister_class(r);
+            }
+        }
+        o.classes.push_back("left_out_was_registered_before");
+    }
     g_log.clear();
     UpdateOutcome up = cfg.update();
     if (up.err.kind == ErrorRec::hash_search) {
         o.inconclusive = true;
         return o;
     }
-    bool used_statically = mentions(s, L, "base") ||
-        mentions(s, L, "method_param") || mentions(s, L, "def_param");
     if (c.use != "dynamic") {
         if (!used_statically) {
             return o; // shrunk away: nothing to diagnose
@@ -566,6 +593,7 @@ static UnregCase gen_unreg(Choice& ch, int size, const std::string& variant) {
         c.left_out = pool[ch.draw(pool.size())];
         drop_mentions(c.left_out, true, true);
         // the leaf is nobody's listed base by construction
+        c.was_registered = ch.chance(1, 3);
     }
     return c;
 }
